@@ -51,6 +51,9 @@ type Proc struct {
 type Program struct {
 	// StartErr, if non-nil, makes exec fail with this error.
 	StartErr error
+	// FailFirst limits StartErr to the first FailFirst launches (0 = every launch fails).
+	FailFirst int
+	launches  int
 	// Main runs on a fresh thread as the process body. It must check p.Alive after every blocking step.
 	Main func(p *Proc)
 	// OnTerm is the SIGTERM reaction (nil: die by the signal).
@@ -256,7 +259,8 @@ func (c *Cmd) Start() error {
 		k.log(Event{Kind: "execfail", Path: c.Path})
 		return &fs.PathError{Op: "fork/exec", Path: c.Path, Err: syscall.ENOENT}
 	}
-	if prog.StartErr != nil {
+	prog.launches++
+	if prog.StartErr != nil && (prog.FailFirst == 0 || prog.launches <= prog.FailFirst) {
 		k.log(Event{Kind: "execfail", Path: c.Path})
 		return &fs.PathError{Op: "fork/exec", Path: c.Path, Err: prog.StartErr}
 	}
